@@ -157,8 +157,16 @@ def lit_cons(events):
     return '[' + '; '.join(items) + ']'
 
 
+ZLL, ZL = 'list (list Z)', 'list Z'
+
+
+def typed(x, ty):
+    return f'({coqlit(x)} : {ty})'
+
+
 def lit_cons_obs(ob):
-    return coqlit((ob['done'], ob['pend'], ob['recent']))
+    return f'({typed(ob["done"], ZLL)}, {typed(ob["pend"], ZLL)}, {typed(ob["recent"], ZL)})'
+
 
 
 def oracle_cons(case, ob, cap):
@@ -264,7 +272,7 @@ def lit_prov_case(tr):
 
 def lit_prov_obs(tr):
     parts = [p for rep in tr['reports'] for p in rep]
-    return coqlit((tr['resps'], parts, tr['versions'], tr['pcounts']))
+    return f'({typed(tr["resps"], ZLL)}, {typed(parts, ZLL)}, {typed(tr["versions"], ZL)}, {typed(tr["pcounts"], ZL)})'
 
 
 def collapse(l):
@@ -408,10 +416,12 @@ def oracle_conc(rnd, tr):
         return 'transaction-id', f'duplicate transaction ids {sorted(ids)}'
     if sorted(ids) != list(range(tr['first_id'] + 1, tr['first_id'] + 1 + ncalls)):
         return 'transaction-id', f'ids {sorted(ids)} are not the {ncalls} numbers after {tr["first_id"]}'
-    for other in tr['reports'][1:]:
-        if other != tr['reports'][0]:
-            return 'subscribers-differ', 'two subscribers received different OperationInvokedReport sequences'
     parts = [p for rep in tr['reports'][0] for p in rep]
+    for other in tr['reports'][1:]:
+        # reports of different transactions are sent by different threads: only the order per transaction is common
+        po = [p for rep in other for p in rep]
+        if sorted(po) != sorted(parts) or any([p for p in po if p[0] == t] != [p for p in parts if p[0] == t] for t in ids):
+            return 'subscribers-differ', 'two subscribers received different OperationInvokedReport sequences for one transaction'
     for ci, recs in enumerate(tr['results']):
         for rec in recs:
             sts = [p[1] for p in parts if p[0] == rec['id']]
@@ -449,7 +459,7 @@ def conc_model_case(rnd, tr):
     parts = [p for rep in tr['reports'][0] for p in rep]
     grouped = [p for rec in recs for p in parts if p[0] == rec['resp_id']]
     wire = sorted((w[1] for w in tr['wire']), key=lambda r: r[1] if len(r) > 1 else -1)
-    return f'(({tr["first_id"]})%Z, 0, [' + '; '.join(hops) + '])', coqlit((wire, grouped))
+    return f'(({tr["first_id"]})%Z, 0, [' + '; '.join(hops) + '])', f'({typed(wire, ZLL)}, {typed(grouped, ZLL)})'
 
 
 # =============================================================================== run
